@@ -559,6 +559,41 @@ def range_boundary_cases(rng, _n):
     return cases
 
 
+def light_composite_cases(rng, _n):
+    """A composite that generates little or no assertion code (`#()`, `#(..)`, `[]`, `[..]`, `#{..}`, `#{}`, `(_, _)`, `_`) written BEFORE
+    and AFTER failing siblings in the same invocation: verdict, entries and the got-text of every other entry are what they are
+    without it (seed C05-11: generator state set for an empty set pattern and never restored blanked every later got-text)."""
+    import tgen
+    cases = []
+    k = 0
+    decl = "#[derive(Debug)] pub struct S { pub a: Vec<i32>, pub m: BTreeMap<String, i32>, pub o: Option<i32>, pub t: (i32, i32), pub b: i32, pub c: String }"
+    adt = lambda ctor, names, vals: "(adt %s (names %s) (vals %s))" % (tgen.hexs(ctor), " ".join(tgen.hexs(n) for n in names), " ".join(vals))
+    lights = ["a: #()", "a: #(..)", "a: []", "a: [..]", "a: #(_, ..)", "m: #{..}", "m: #{}", "t: (_, _)", "o: _", "a: #(1, 2)", "a.len(): 0", "o: Some(_)"]
+    meanings = "(meanings %s)" % " ".join("(v %s (int %d))" % (tgen.hexs(str(x)), x) for x in (0, 1, 2, 5, 6))
+    for (a, m, o) in (([], [], None), ([1, 2], [("k", 1)], 3)):
+        val = "S { a: vec![%s], m: BTreeMap::from([%s]), o: %s, t: (1, 2), b: 5, c: \"x\".to_string() }" % (
+            ", ".join(str(x) for x in a), ", ".join('("%s".to_string(), %d)' % kv for kv in m), "None" if o is None else "Some(%d)" % o)
+        sx = adt("S", ["a", "m", "o", "t", "b", "c"],
+                 ["(seq %s)" % " ".join("(int %d)" % x for x in a),
+                  "(map (keys %s) (vals %s))" % (" ".join("(str %s)" % tgen.hexs(x) for x, _ in m), " ".join("(int %d)" % y for _, y in m)),
+                  adt("None", [], []) if o is None else adt("Some", [], ["(int %d)" % o]),
+                  "(tuple (int 1) (int 2))", "(int 5)", "(str %s)" % tgen.hexs("x")])
+        for light in lights:
+            for (B, C) in ((5, "x"), (6, "x"), (5, "y"), (6, "y")):
+                for order in (0, 1):
+                    sib = 'b: %d, c: "%s"' % (B, C)
+                    pat = "S { %s, %s, .. }" % ((light, sib) if order == 0 else (sib, light))
+                    c = t3.Case()
+                    c.id = k
+                    k += 1
+                    c.forms = {"light-composite-sibling": 1}
+                    c.perturbed = (B, C) != (5, "x")
+                    c.meanings = meanings
+                    t3.finish_case(c, decl, "S", val, sx, pat)
+                    cases.append(c)
+    return cases
+
+
 def set_palette_cases(rng, n):
     from checks import c10
     return c10.macro_cases(rng, n)
@@ -688,6 +723,7 @@ def check(ck, aspect, theorems, t2_parts=("body", "status")):
                                 ("invocation-context", invocation_context_cases, "the same assertion after other assertions, in expression position, as a match arm, in loops / closures, next to caller locals named like helpers"),
                                 ("eq-literal-text", eq_literal_text_cases, "expected expressions with blanks and `::` inside string literals"),
                                 ("range-boundary", range_boundary_cases, "integer and float ranges against values at and next to every bound"),
+                                ("light-composite-siblings", light_composite_cases, "composites that generate little or no code (`#()`, `#(..)`, `[]`, `#{..}`, `(_, _)`, `_`) before and after failing siblings"),
                                 ("c10-macro", set_palette_cases, "set patterns from a palette of element patterns over every listed order of small collections")):
         fam = t3.run_corpus(ck, name, 0, per_bin=40, positions=maker)
         stats, mism = t3.compare(ck, fam, name)
